@@ -128,9 +128,14 @@ def shas_of(rec):
     return s
 
 
-def effective_dest_ops(rec):
-    """Successful merges that end up in a destination branch, with the temporary branches of robust_merge
-    (tmp/octopus/<dst>, tmp/normal/<dst>) resolved to the merges made on them."""
+def is_master_queue(name):
+    """q/<version>: the master queue branch of a destination (not a q/w/... queue-integration branch)."""
+    return re.match(r'^q/\d+(\.\d+)*$', name) is not None
+
+
+def effective_ops(rec, pred):
+    """Successful merges that end up in a branch selected by `pred`, with the temporary branches of
+    robust_merge (tmp/octopus/<dst>, tmp/normal/<dst>) resolved to the merges made on them."""
     eff, tmp = [], {}
     for t in rec.get('trace', []):
         if t['op'] == 'create' and t['name'].startswith('tmp/'):
@@ -138,13 +143,18 @@ def effective_dest_ops(rec):
         elif t['op'] == 'merge' and t['ok']:
             if t['dst'].startswith('tmp/'):
                 tmp.setdefault(t['dst'], []).append(list(t['srcs']))
-            elif is_dest(t['dst']):
+            elif pred(t['dst']):
                 if len(t['srcs']) == 1 and t['srcs'][0].startswith('tmp/'):
                     for srcs in tmp.get(t['srcs'][0], []):
                         eff.append((t['dst'], srcs))
                 else:
                     eff.append((t['dst'], list(t['srcs'])))
     return eff
+
+
+def effective_dest_ops(rec):
+    """Successful merges that end up in a destination branch (see effective_ops)."""
+    return effective_ops(rec, is_dest)
 
 
 def other_dest_writes(rec):
